@@ -67,6 +67,32 @@ type PathCtx struct {
 	blocks []int // block indices visited, for witnesses
 	phiSel map[*ssa.Phi]ssa.Value
 	P      *Prog
+	q      *PathQuery
+}
+
+// PathCond is a branch condition with the truth value it has on the current path.
+type PathCond struct {
+	Cond ssa.Value
+	Val  bool
+}
+
+// PathConds returns the branch conditions decided on this path (loop-carried ones already dropped).
+func (c *PathCtx) PathConds() []PathCond {
+	if c.q == nil {
+		return nil
+	}
+	var out []PathCond
+	var keys []string
+	for k := range c.assign {
+		keys = append(keys, k)
+	}
+	sort.Strings(keys)
+	for _, k := range keys {
+		if rec, ok := c.q.condByKey[k]; ok {
+			out = append(out, PathCond{rec.cond, c.assign[k] == rec.pol})
+		}
+	}
+	return out
 }
 
 // Known returns (value, known) for a canonical condition key.
@@ -176,6 +202,12 @@ type PathQuery struct {
 	InitAssign map[string]bool
 	MaxStates  int
 	Exhausted  bool // set when MaxStates was hit
+	condByKey  map[string]condRec
+}
+
+type condRec struct {
+	cond ssa.Value
+	pol  bool
 }
 
 type pathState struct {
@@ -211,6 +243,7 @@ func (q *PathQuery) Run() {
 	if q.MaxStates == 0 {
 		q.MaxStates = 200000
 	}
+	q.condByKey = map[string]condRec{}
 	fn := q.Fn
 	if len(fn.Blocks) == 0 {
 		return
@@ -262,7 +295,7 @@ func (q *PathQuery) Run() {
 			continue
 		}
 		visited[vk] = true
-		ctx := &PathCtx{K: q.K, assign: s.assign, blocks: s.blocks, phiSel: s.phiSel, P: q.P}
+		ctx := &PathCtx{K: q.K, assign: s.assign, blocks: s.blocks, phiSel: s.phiSel, P: q.P, q: q}
 		stop := false
 		st := s.st
 		defers := s.defers
@@ -310,7 +343,7 @@ func (q *PathQuery) Run() {
 			st := st
 			if q.AtBlock != nil {
 				// the edge's facts are visible to the client before a back edge forgets them
-				st = q.AtBlock(succ, st, &PathCtx{K: q.K, assign: assign, blocks: s.blocks, phiSel: s.phiSel, P: q.P})
+				st = q.AtBlock(succ, st, &PathCtx{K: q.K, assign: assign, blocks: s.blocks, phiSel: s.phiSel, P: q.P, q: q})
 			}
 			// back edge: forget conditions and phi selections defined inside the loop
 			if succ.Dominates(s.b) {
@@ -373,6 +406,9 @@ func (q *PathQuery) Run() {
 				}
 			}
 			key, pol := q.K.condKey(t.Cond)
+			if _, have := q.condByKey[key]; !have {
+				q.condByKey[key] = condRec{t.Cond, pol}
+			}
 			// constant condition
 			if c, ok := t.Cond.(*ssa.Const); ok && c.Value != nil {
 				if c.Value.String() == "true" {
